@@ -167,9 +167,9 @@ const (
 //
 // with size = 1*15 hexadecimal digits (either case) and len(data) = size. It returns the
 // concatenated chunk data and a verdict. Left unspecified (the framing is positionally intact):
-// signature bytes that are not hexadecimal digits - a lone CR or LF among them - (the signature's
-// value is not part of the framing; only a CRLF pair inside it ends the header line early), and
-// bytes after the terminating chunk.
+// signature bytes that are not hexadecimal digits - CR and LF among them - (the signature is 64
+// octets by position and its value is not part of the framing), and bytes after the terminating
+// chunk.
 func ChunkedStrict(s []byte) (payload []byte, verdict int) {
 	pos := 0
 	odd := false
@@ -199,13 +199,10 @@ func ChunkedStrict(s []byte) (payload []byte, verdict int) {
 		if len(s)-pos < 64 {
 			return payload, ChunkMalformed
 		}
-		for j, c := range s[pos : pos+64] {
-			if c == '\r' && j+1 < 64 && s[pos+j+1] == '\n' {
-				// a line end inside the 64 octets: the header line is over before the signature is
-				return payload, ChunkMalformed
-			}
+		for _, c := range s[pos : pos+64] {
 			if !isHex(c) {
-				// (a lone CR or LF included: it ends no line, so the framing is positionally intact)
+				// (CR and LF included, alone or as a pair: the 64 octets are taken by position, so the
+				// framing around them is intact whatever they are)
 				odd = true
 			}
 		}
